@@ -66,6 +66,10 @@ CLAIMED = {
   "inverse-operation table over the store operations of save/remove with entry-relative index arithmetic on the height key; guarded-by analysis of AddGroup; writer/reader key agreement on constant objects; who-may-write for count/lastGroup/groups",
   "save and remove are inverses key family by key family (record, last pointer, height-index entry of exactly the added/removed group, count) and both maintain the in-memory count/last group; AddGroup saves only under the lock with parent present and predecessor == last; start-up reloads the keys save writes and height lookups use the same key derivation; only save/remove/init write the store, the count and the last pointer. Mid-operation crashes (no intent mark exists) are not decided.",
   "Trusted: go/ssa. The fix: commit 3c26ddb (delete the removed group's height entry) repaired finding F18; the rule re-checks it on every run."),
+ "C20": ("3/C20",
+  "layer-coherence check of the storage read APIs; amount/operand pairing on AddMiner/AddStake/GetRefundStake and its three callers; Sha256-nesting-depth agreement of key derivations across writer, reader, iterator and remover; mutation-cone check of every BeforeExecute",
+  "Agreement rules decided structurally: lookup by id, by account and by iteration must sit on the same storage layer; stake debited == stake recorded, after uniqueness in both registries; refunded == subtracted, removal only below the type's minimum, callers schedule the returned amount; all four functions derive stake/account/status keys at depth 1/2/3; BeforeExecute mutates only through ProcessFee. The sums themselves are not decided.",
+  "Trusted: go/ssa; miner records live only under the two registry addresses. Recorded defects F19 (DataIterator ignores pending writes) and F21 (UNSTAKE schedules the requested, not the subtracted amount — confirmed with a demo) are printed as KNOWN-FINDING."),
 }
 
 NOT_YET = {}
